@@ -28,7 +28,11 @@ Inductive tests_run :=
   | TDone (rs : list test_result) (skipped : list ident) (stk : istack)
   | TSigfpe                       (* nanoc itself is killed (division trap inside the evaluator) *)
   | TUnmodelled
-  | TNoFuel.                      (* the evaluator does not finish within the fuel: nanoc has not terminated *)
+  | TNoFuel                       (* the evaluator does not finish within the fuel: nanoc has not terminated *)
+  | TOob (f : option ident) (out : list N).
+                                  (* an array index out of bounds inside the evaluator: nanoc prints "Runtime Error" and
+                                     exits 1 on the spot; f = the test that was running (None: a top-level constant),
+                                     out = what that test had printed *)
 
 Definition fresh_world (s : istack) : world := {| w_stk := s; w_out := []; w_asr := [] |}.
 
@@ -49,6 +53,7 @@ Fixpoint run_tests (fns : list fn) (fuel : nat) (shs : list shadow) (stk : istac
         | ISigfpe => TSigfpe
         | IUnmodelled => TUnmodelled
         | INoFuel => TNoFuel
+        | IOob w => TOob (Some (sh_fn sh)) (w_out w)
         end
   end.
 
@@ -59,6 +64,7 @@ Definition run_interp (fuel : nat) (sp : sprogram) (base : istack) : tests_run :
   | ISigfpe => TSigfpe
   | IUnmodelled => TUnmodelled
   | INoFuel => TNoFuel
+  | IOob w => TOob None (w_out w)
   end.
 
 Definition all_passed (rs : list test_result) : bool := forallb test_passed rs.
@@ -99,6 +105,7 @@ Definition nanoc (ph : phases) (fuel : nat) (sp : sprogram) (base : istack) : na
   | TSigfpe => NKilled
   | TUnmodelled => NUnmodelledRun
   | TNoFuel => NHang
+  | TOob _ _ => NExit 1 false [] (missing_shadow sp)       (* exit(1) inside the evaluator: no summary, no executable *)
   end.
 
 Definition produces_binary (r : nanoc_result) : Prop := match r with NExit _ true _ _ => True | _ => False end.
